@@ -36,6 +36,9 @@ CHECKS['C15'] = dict(tech='MIR symbolic execution (mirsym) of limiter State::adv
 CHECKS['C08'] = dict(tech='Kani/CBMC on the real block_store.rs (small caches, derived capacity-2 copy) + MIR symbolic execution (mirsym) at the real capacity boundary and of EngineManager::queue_block + z3',
     text='one operation from an arbitrary invariant-satisfying store (cache lengths 0..3 by Kani, 99..102 by MIR execution): try_push appends exactly the next block, update_persisted never shrinks the durable range and resets the queue exactly when overtaken, eviction only of durable blocks down to the capacity, every queued block cached or durable; queue_block pushes only blocks that passed verification (pre-genesis bound + execution layer, or certificate under the epoch schedule)',
     note='trusted: each call atomic under the watch lock; blocks are pre-genesis blocks with opaque payloads; FinalBlock::verify summarised by its contract (C04); interleavings with background tasks and restart outside', ref='4/C08')
+CHECKS['C12'] = dict(tech='MIR symbolic execution (mirsym) of the consensus and gossip handshake coroutines and of PoolWatch::insert/remove + z3',
+    text='the four handshake functions accept iff the signed session id is this stream\'s id, the genesis matches, the signature is genuinely by the claimed key over this id and (outbound) the key is the dialled peer, for every symbolic received handshake (ideal signatures); pools: one insert/remove from an arbitrary pool (4 keys, symbolic quota) decides and updates per the specification, and the invariant survives a second complete insert interleaved at the lock acquisition',
+    note='trusted: ideal signatures, frame I/O by contract, Watch as mutex-guarded cell; uniqueness of noise session ids (snow) assumed; accept loops outside', ref='4/C12')
 NA = {
  'C01': 'agreement quantifies over all multi-node schedules x Byzantine behaviours x crash points of the async replica system; no bounded solver encoding of the real replicas is within reach (its local obligations are decided under C02, C03, C04, C05, C07, C11)',
  'C06': 'liveness over fair infinite suffixes from adversarially reached states; not expressible as a bounded symbolic-execution query',
